@@ -88,7 +88,9 @@ func (e *eventV1) Membership() (string, error) {
 	var content struct {
 		Membership string `json:"membership"`
 	}
-	if err := json.Unmarshal(e.eventFields.Content, &content); err != nil {
+	// The member named exactly "membership", as the auth rules (NewMemberContentFromEvent), the redaction
+	// algorithm and the signature checks read it: not "Membership" or another spelling encoding/json accepts.
+	if err := json.Unmarshal(exactMembersOnly(e.eventFields.Content, &content), &content); err != nil {
 		return "", err
 	}
 	if e.StateKey() == nil {
